@@ -25,7 +25,9 @@ def shape(rng, n):
 def occupancy(rng, n):
     k = 0
     while k < n:
-        es = specgen.gen_product_einsum(rng)
+        # 4-5 ranks: room for two flatten()s and a further, independently partitioned rank
+        x = rng.random()
+        es = specgen.gen_product_einsum(rng, max_ranks=5 if x < 0.12 else (4 if x < 0.35 else 3), pool=specgen.RANK_POOL + ["L"])
         mp, syms = specgen.occupancy_mapping(rng, es)
         if mp is None:
             continue
